@@ -41,7 +41,7 @@ Fails(st, c) ==
   CASE c.op \in {"set", "add", "fromstr"}              -> ~AllOK(c.ts)
     [] c.op \in {"from", "envfrom", "replyto"}         -> ~AllOK(c.ts)
     [] c.op = "setign"                                 -> FALSE
-    [] c.op \in {"addformat", "fromformat", "reset", "envign"}   -> FALSE
+    [] c.op \in {"addformat", "fromformat", "reset", "envign", "render"}   -> FALSE
     [] OTHER -> FALSE
 
 Single(k) == k \in {"From", "Env", "Reply"}
@@ -58,6 +58,7 @@ Apply(st, c) ==
          [] c.op = "fromformat" -> [st EXCEPT !.From = <<[n |-> c.name, a |-> Tok[c.ts[1]].a]>>]
          \* SetAddrHeaderIgnoreInvalid(HeaderEnvelopeFrom, ...): the list of the valid addresses, possibly empty
          [] c.op = "envign"     -> [st EXCEPT !.Env = Entries(ValidOnly(c.ts))]
+         [] c.op = "render"     -> st              \* a render between two setter calls changes nothing
          [] c.op = "reset"      -> InitSt          \* Msg.Reset: every address list, the envelope-from included
          [] OTHER -> st
 
@@ -91,6 +92,7 @@ MenuSmall ==
   \cup {C("envfrom", "Env", <<"a5">>, ""), C("replyto", "Reply", <<"a2">>, "")}
   \cup {C("addformat", "Bcc", <<"a1">>, NameCls.quoted)}
   \cup {C("reset", "To", <<>>, ""), C("add", "Cc", <<"a6">>, ""), C("add", "To", <<"a7">>, "")}
+  \cup {C("render", "To", <<>>, ""), C("envfrom", "Env", <<"a2">>, "")}
   \cup {C("envign", "Env", <<"bad">>, ""), C("envign", "Env", <<"bad", "a5">>, "")}
 
 MenuFull ==
@@ -107,7 +109,7 @@ MenuFull ==
   \cup {C("replyto", "Reply", <<t>>, "") : t \in {"a2", "a3"}}
   \cup {C("addformat", k, <<"a1">>, NameCls[nm]) : k \in Kinds, nm \in DOMAIN NameCls}
   \cup {C("fromformat", "From", <<"a4">>, NameCls[nm]) : nm \in DOMAIN NameCls}
-  \cup {C("reset", "To", <<>>, "")} \cup {C("set", k, <<t>>, "") : k \in Kinds, t \in {"a6", "a7"}} \cup {C("envfrom", "Env", <<"a7">>, "")}
+  \cup {C("reset", "To", <<>>, ""), C("render", "To", <<>>, "")} \cup {C("set", k, <<t>>, "") : k \in Kinds, t \in {"a6", "a7"}} \cup {C("envfrom", "Env", <<"a7">>, "")}
   \cup {C("envign", "Env", <<"bad">>, ""), C("envign", "Env", <<"bad2", "a5">>, ""), C("envign", "Env", <<>>, "")}
 
 Menu == IF MENU = "full" THEN MenuFull ELSE MenuSmall
